@@ -147,7 +147,6 @@ template<typename DT, typename IT> void cycle_case(Tape& t, Ctx& c, int max_leve
     }
   }
   c.desc.set("steps", js);
-  if(const char* dbg = getenv("C09_DEBUG")) { FILE* f = fopen(dbg, "a"); if(f) { fprintf(f, "%d %zu %d\n", t.size, t.pos, nlev); fclose(f); } }
   c.label("levels:" + std::to_string(nlev)); c.label("steps:" + std::to_string(nsteps)); c.label(std::string("dt:") + TypeName<DT>::n());
   for(int l = 0; l < nlev; ++l) { if(l) c.label("A:" + h.lv[l].a_cls); if(l + 1 < nlev) { c.label("R:" + h.lv[l].r_cls); c.label("P:" + h.lv[l].p_cls); } int nf = 0; for(char f : h.lv[l].filt) nf += f; c.label(nf == 0 ? "filter:none" : (nf == h.lv[l].n ? "filter:all" : "filter:some")); }
   // non-trivial: >= 3 levels in use and a cycle other than V, or a sub-range / missing-smoother variant on >= 2 levels;
@@ -210,9 +209,6 @@ int main(int argc, char** argv)
   FEAT::Runtime::ScopeGuard guard(argc, argv);
   std::vector<Target> tg;
   // tape: hierarchy (matrices, transfers, operators) + steps
-  tg.push_back({"cycle", [](Tape& t, Ctx& c) {
-    try { if(t.pick({3, 1}) == 0) cycle_case<double, std::uint64_t>(t, c, 7, 4); else cycle_case<float, std::uint32_t>(t, c, 7, 4); }
-    catch(Fail& f) { if(const char* dbg = getenv("C09_DEBUG_FAIL")) { FILE* fp = fopen(dbg, "a"); if(fp) { fprintf(fp, "%s\n{\"target\":\"cycle\",\"size\":%d,\"tape\":[", f.sym.c_str(), t.size); for(size_t k = 0; k < t.v->size() && k < t.pos; ++k) fprintf(fp, "%s%u", k ? "," : "", (*t.v)[k]); fprintf(fp, "]}\n"); fclose(fp); } } throw; }
-  }, 100, 2, 20000});
+  tg.push_back({"cycle", [](Tape& t, Ctx& c) { if(t.pick({3, 1}) == 0) cycle_case<double, std::uint64_t>(t, c, 7, 4); else cycle_case<float, std::uint32_t>(t, c, 7, 4); }, 100, 2, 20000});
   return main_impl(argc, argv, tg);
 }
